@@ -212,7 +212,16 @@ def _check_chain(case):
         cur = nxt
     if ops != before:
         return False, "operations argument modified"
-    return got == cur, f"got {got} expected {cur}"
+    if got != cur:
+        return False, f"got {got} expected {cur}"
+    # the operations may be handed over as any iterable (tuple, one-shot generator / iterator), the rules as a tuple
+    for kind, arg in (("tuple", tuple(ops)), ("generator", (o for o in ops)), ("iterator", iter(list(ops))), ("map", map(lambda o: o, ops))):
+        g2 = list(decompose_operations(arg, rs))
+        if g2 != cur:
+            return False, f"operations given as a {kind}: got {g2} expected {cur}"
+    if list(decompose_operations(list(ops), tuple(rs))) != cur:
+        return False, "rules given as a tuple"
+    return True, "ok"
 
 
 def _check_native(mode):
